@@ -13,7 +13,7 @@ Definition single_wf (fs0 : fsT) (sc : scn) : Prop :=
    creation of the temporary file and os.replace (all tensor writes, close, release, copymode) returned
    normally, and [d] is what the temporary file held at that moment *)
 Definition replaced_by_complete (c : ctl) (fs0 : fsT) (tens : list tstate) (sc : scn) (d : list byte) (m : N) : Prop :=
-  exists s1, PreRepl fs0 tens sc c s1 d m.
+  exists s1, InvA fs0 tens sc s1 /\ PreRepl fs0 tens sc c s1 d m.
 
 Lemma InvA_lookup fs0 tens sc s :
   InvA fs0 tens sc s -> forall p, T (sc_tmpd sc) p = false -> lookup (s_fs s) p = lookup fs0 p.
@@ -60,9 +60,9 @@ Section Thms.
                    /\ replaced_by_complete c fs0 tens sc d m.
   Proof.
     destruct Hwf as (H1 & H2 & H3). cbv zeta. subst tmpf dest.
-    destruct (spec c) as [(HA & _)|(d & m & s1 & HB & _ & HP & _)].
+    destruct (spec c) as [(HA & _)|(d & m & s1 & HB & HA1 & HP & _)].
     - left. apply (InvA_lookup _ _ _ _ HA). exact H2.
-    - right. exists d, m. split; [|split; [exact (proj1 (proj2 HB)) | exists s1; exact HP]].
+    - right. exists d, m. split; [|split; [exact (proj1 (proj2 HB)) | exists s1; split; [exact HA1|exact HP]]].
       rewrite (InvB_lookup _ _ _ _ _ _ HB _ H2). apply lookup_insert_eq.
   Qed.
 
